@@ -8,6 +8,7 @@
   too (it is run with empty responses).
 -/
 import MxModel.Core.ProxyDex
+import MxModel.Core.ProxyDexCheck
 import MxModel.Driver.Proto
 
 open Mx Mx.ProxyDex Mx.Proto
@@ -168,8 +169,14 @@ def handle (d : DSt) (line : String) : DSt × Option String :=
           | some _ => (d, some s!"R {n} ok ? (the model accepts what the proxy's own guard rejected)")
           | none => (d, some s!"R {n} err")
       | _ =>
+          -- callee facts of Props/C16Run (FarmExact, FactoryMergeOK) evaluated on the recorded answer
+          let bad := match parseOp a r false with
+            | some op => (step d.s op).isSome && !(calleeOKb d.s op)
+            | none => false
           match (parseOp a r false).bind (step d.s) with
-          | some (s', o) => ({ d with s := s' }, some s!"R {n} ok {showOut s' o} | {showState s' bound}")
+          | some (s', o) =>
+              if bad then ({ d with s := s' }, some s!"R {n} ok CALLEE-FACT-VIOLATED (FarmExact / FactoryMergeOK of Props/C16Run)")
+              else ({ d with s := s' }, some s!"R {n} ok {showOut s' o} | {showState s' bound}")
           | none => (d, some s!"R {n} err")
   | "Q" :: n :: _ => (d, some s!"V {n} err")
   | _ => (d, none)
